@@ -438,6 +438,7 @@ META["C14"] = dict(
     rule="a case is (spec kind, declared hint, channel) / (short form, class, init_args names) / (nested shape) / (class-change argv); "
     "distinct by hash; all are non-trivial (a decision or an instantiation is judged).",
     gates={
+        "mon.class_change_untouched_parameter_has_own_default": g(100, 1000),
         "mon.two_source_short_forms": g(300, 3000), "st.two_sources.dict-entry": g(80, 800), "st.two_sources.subcommand-class-group": g(40, 400),
         "mon.spec_decisions": g(3000, 30000), "mon.instantiations": g(500, 5000), "mon.short_vs_explicit": g(2000, 20000),
         "mon.nested": g(300, 3000), "mon.class_change": g(300, 3000),
